@@ -391,6 +391,21 @@ func jsonGenCases(r *Rng, tier string, emit func(Case)) {
 			emit(jsonCase(1, 1, b, "lit"))
 		}
 	}
+	// all whitespace bytes at all positions of short token strings
+	allStrings([]byte("\t\n\r 1[],"), 4, func(d []byte) {
+		i++
+		emit(jsonCase(i%3, 1, d, "ws"))
+	})
+	// deep nesting (the state stack), complete and truncated
+	for _, depth := range []int{10, 100, 300} {
+		a := bytes.Repeat([]byte("["), depth)
+		o := bytes.Repeat([]byte(`{"a":`), depth)
+		emit(jsonCase(1, 1, append(append(append([]byte{}, a...), '1'), bytes.Repeat([]byte("]"), depth)...), "deep"))
+		emit(jsonCase(1, 1, append(append(append([]byte{}, o...), '1'), bytes.Repeat([]byte("}"), depth)...), "deep"))
+		emit(jsonCase(1, 1, append(append(append([]byte{}, a...), '1'), bytes.Repeat([]byte("]"), depth-1)...), "deep"))
+		emit(jsonCase(1, 2, append(append(append([]byte{}, o...), '1'), bytes.Repeat([]byte("}"), depth+1)...), "deep"))
+		emit(jsonCase(1, 2, append(append([]byte{}, a...), o...), "deep"))
+	}
 	emit(jsonCase(3, 2, []byte("[1]"), "failing reader"))
 	emit(jsonCase(3, 0, nil, "failing reader"))
 	for n := 0; n < nRand; n++ {
@@ -843,6 +858,7 @@ func jsonSpecDocs(r *Rng, tier string, onlyValid bool, name string, emit func(Ca
 	allStrings(jsonAlphabet, kA, func(d []byte) { out(d, "exh") })
 	allTokenStrings(jsonTokens, kA+1, func(d []byte) { out(d, "tok") })
 	allStrings([]byte("-01.eE+"), kN, func(d []byte) { out(d, "num") })
+	allStrings([]byte("\t\n\r 1[],"), 4, func(d []byte) { out(d, "ws") })
 	allStrings([]byte("\"\\au/0\x1f"), 5, func(d []byte) {
 		out(append(append([]byte{'"'}, d...), '"'), "str")
 	})
